@@ -65,6 +65,34 @@ theorem c01_protect_of_match (c : CryptoOps) (kv : KeyView) (k : Kind) (d rnd : 
   unfold protect
   rcases h with h | h <;> simp [h]
 
+/-- Hypotheses of the AcraBlock round trip through the registry handler: the AEAD laws; the writer's
+current symmetric key `key` occurs somewhere in the reader's key list; keys listed before it do not
+unseal the wrapped data key when their 2-byte id collides; the 2-byte id really is 2 bytes and the
+length fields do not wrap (both follow from `HashLen c` resp. `SealLen c`). -/
+def BlockRoundTripHyps (c : CryptoOps) (kvW kvR : KeyView) (rnd p : Bytes) : Prop :=
+  SealLaws c ∧ ∃ (key : Bytes) (pre post : List Bytes),
+    (keyId c key []).length = 2 ∧ kvW.sym = some key ∧ kvR.syms = some (pre ++ key :: post) ∧
+    (∀ k' ∈ pre, ∀ encKey, c.enc key [] (rnd.take 32) ((rnd.drop 44).take 12) = some encKey →
+      keyId c k' [] = keyId c key [] → c.dec k' [] encKey = none) ∧
+    (∀ encKey, c.enc key [] (rnd.take 32) ((rnd.drop 44).take 12) = some encKey → encKey.length < 65536) ∧
+    p.length < 2^63
+
+/-- Hypotheses of the AcraStruct round trip through the registry handler: the laws of the AEAD and
+of Secure Message with their length laws, key generation; the writer used the public key of a
+well-formed `priv` that occurs somewhere in the reader's list of private keys; keys listed before it
+fail on the value (or give the same answer). -/
+def StructRoundTripHyps (c : CryptoOps) (kvW kvR : KeyView) (m rnd : Bytes) : Prop :=
+  SealLaws c ∧ SealLen c ∧ MsgLaws c ∧ MsgLen c ∧ KeygenLaws c ∧ ∃ (priv : Bytes) (pre post : List Bytes),
+    c.validPriv priv = true ∧ kvW.pub = some (c.pubOf priv) ∧ kvR.privs = some (pre ++ priv :: post) ∧
+    (∀ k' ∈ pre, ∀ s, createStruct c (c.pubOf priv) [] m rnd = .ok s →
+      decryptStruct c k' [] s = .err ∨ decryptStruct c k' [] s = .ok m)
+
+/-- the round-trip hypotheses for the envelope kind used -/
+def RoundTripHyps (c : CryptoOps) (k : Kind) (kvW kvR : KeyView) (m rnd p : Bytes) : Prop :=
+  match k with
+  | .block => BlockRoundTripHyps c kvW kvR rnd p
+  | .struct => StructRoundTripHyps c kvW kvR m rnd
+
 /-- everything `reveal` and the column processor need to know about a value protected as AcraBlock -/
 theorem c01_protect_block_facts (c : CryptoOps) (hs : SealLaws c) (kvW kvR : KeyView) (key m rnd p : Bytes)
     (pre post : List Bytes)
